@@ -74,8 +74,8 @@ def agreeb (env : Env) (senv : SEnv) : Nat → Ty → SType → Bool
       | _ => false)
     | .refT t => agreeRef env senv f t S
     | .prim p => agreePrim p S
-    | .dictE _ => (match S with
-      | .hashmapE => true
+    | .dictE k t => (match S with
+      | .hashmapE n sk st => keyWidth k == some n && agreeb env senv f k sk && agreeb env senv f t st
       | _ => false)
     | _ => false
 /-- the content `t` of a referenced cell against `^S` / `^Cell` -/
